@@ -214,6 +214,26 @@ pub fn run(mut run: Run) -> i32 {
         let (ga, gb) = (rewritten(a, how), if how == 3 { b.g.clone() } else { rewritten(b, how) });
         check_result(acc, idx, a, b, &ga, &gb, names[how]);
     });
+    // images of the operands under integer affine maps (oblique edges, crossing points that are not representable); the exact arrangement oracle is
+    // recomputed on the image. Only the moderate maps: the extreme ones make slivers thinner than the overlay's fixed-point grid resolves.
+    {
+        let step2 = if quick { 3 } else { 1 };
+        let sub2: Vec<&Operand> = ops.iter().step_by(step2).collect();
+        let n2 = sub2.len();
+        for f in imaps().iter().take(3) {
+            let img: Vec<Operand> = sub2
+                .iter()
+                .map(|o| match map_ag(&o.ag, f) {
+                    AG::Polys(ps) => operand(ps, o.tag),
+                    _ => unreachable!(),
+                })
+                .collect();
+            run.stage(&format!("pairs-affine-image {}", f.name), n2 * n2, |idx, acc| {
+                let (a, b) = (&img[idx / n2], &img[idx % n2]);
+                check_result(acc, idx, a, b, &a.g, &b.g, "affine-image");
+            });
+        }
+    }
     // operands far from the origin / at another scale: the same point sets mapped by an exact similarity (integer offset, power-of-two scale);
     // the result must be the image of the lattice result: same areas (scaled) and the same per-face membership
     {
